@@ -405,6 +405,518 @@ fn check(case: &Case, ctx: &mut Ctx) -> Verdict {
     Ok(())
 }
 
+
+// ------------------------------------------------------------------------------------------------
+// section `awaiter-set`: model-based histories on the intrusive awaiter list itself
+
+#[derive(Debug, Clone, Copy, Serialize, Deserialize, PartialEq, Eq)]
+enum AOp {
+    Register { a: u8 },
+    Unregister { a: u8 },
+    TakeNotification { a: u8 },
+    NotifyOne,
+    AdvanceGeneration,
+    NotifyPrior,
+    /// drop the awaiter (after unregistering it if needed) and create a fresh one in its place
+    Recreate { a: u8 },
+}
+
+fn aops_strategy() -> impl Strategy<Value = Vec<AOp>> {
+    let op = prop_oneof![
+        6 => (0u8..5).prop_map(|a| AOp::Register { a }),
+        3 => (0u8..5).prop_map(|a| AOp::Unregister { a }),
+        3 => (0u8..5).prop_map(|a| AOp::TakeNotification { a }),
+        4 => Just(AOp::NotifyOne),
+        2 => Just(AOp::AdvanceGeneration),
+        3 => Just(AOp::NotifyPrior),
+        1 => (0u8..5).prop_map(|a| AOp::Recreate { a }),
+    ];
+    prop::collection::vec(op, 0..60)
+}
+
+#[derive(Clone, Copy, PartialEq, Eq, Debug)]
+enum AState {
+    Idle,
+    Waiting { generation: u64, waker: usize },
+    Notified,
+}
+
+fn run_awaiter_set(ops: &Vec<AOp>, ctx: &mut Ctx) -> Verdict {
+    use awaiter_set::{Awaiter, AwaiterSet};
+    let fl = |k: &str, msg: String| Failure::new(format!("C08/awaiter-set/{k}"), format!("{msg}; ops={ops:?}"));
+    let ledger = Arc::new(Ledger::default());
+    let mut set = AwaiterSet::new();
+    let mut awaiters: Vec<Pin<Box<Awaiter>>> = (0..5).map(|_| Box::pin(Awaiter::new())).collect();
+    let mut model = [AState::Idle; 5];
+    // registration order of waiting awaiters
+    let mut order: Vec<usize> = Vec::new();
+    let mut generation = 1u64;
+    let mut next_waker = 0usize;
+    // waker id -> number of wakes seen through the ledger is not needed: identity is checked by
+    // waking the returned waker and looking at which id's counter moved
+    let mut notified_any = false;
+    for (step, op) in ops.iter().enumerate() {
+        match *op {
+            AOp::Register { a } => {
+                let a = usize::from(a);
+                if model[a] == AState::Notified {
+                    continue; // contract: consume the notification before re-registering
+                }
+                let wid = next_waker % 8;
+                next_waker += 1;
+                let w = waker(wid, &ledger, false, None);
+                // the set stores the waker handed in (the harness's root handle is what it owns now)
+                // SAFETY: the awaiter is pinned, outlives its registration (unregistered before it
+                // is dropped) and is only used with this set.
+                unsafe { set.register(awaiters[a].as_mut(), w) };
+                match model[a] {
+                    AState::Waiting { generation: g, .. } => model[a] = AState::Waiting { generation: g, waker: wid },
+                    _ => {
+                        model[a] = AState::Waiting { generation, waker: wid };
+                        order.push(a);
+                    }
+                }
+            }
+            AOp::Unregister { a } => {
+                let a = usize::from(a);
+                if model[a] == AState::Idle {
+                    continue; // contract: only registered awaiters are unregistered
+                }
+                // SAFETY: as above.
+                unsafe { set.unregister(awaiters[a].as_mut()) };
+                if matches!(model[a], AState::Waiting { .. }) {
+                    model[a] = AState::Idle;
+                    order.retain(|x| *x != a);
+                }
+            }
+            AOp::TakeNotification { a } => {
+                let a = usize::from(a);
+                let got = awaiters[a].take_notification();
+                if got != (model[a] == AState::Notified) {
+                    return Err(fl("take_notification/differs-from-model", format!("step {step}: take_notification() = {got}, model state {:?}", model[a])));
+                }
+                if got {
+                    model[a] = AState::Idle;
+                }
+            }
+            AOp::NotifyOne | AOp::NotifyPrior => {
+                let prior = matches!(op, AOp::NotifyPrior);
+                let before: Vec<u32> = (0..8).map(|i| ledger.wakes[i].load(Ordering::Relaxed)).collect();
+                let got = if prior { set.notify_one_prior_generation() } else { set.notify_one() };
+                let expect_some = if prior {
+                    order.first().is_some_and(|h| matches!(model[*h], AState::Waiting { generation: g, .. } if g < generation))
+                } else {
+                    !order.is_empty()
+                };
+                match got {
+                    None => {
+                        if expect_some {
+                            return Err(fl("notify/none-but-waiter-registered", format!("step {step} {op:?}: returned None with waiting awaiters {order:?} (generation {generation})")));
+                        }
+                    }
+                    Some(w) => {
+                        if !expect_some {
+                            return Err(fl("notify/some-but-nobody-eligible", format!("step {step} {op:?}: returned a waker although no awaiter is eligible")));
+                        }
+                        w.wake();
+                        notified_any = true;
+                        let moved: Vec<usize> = (0..8).filter(|i| ledger.wakes[*i].load(Ordering::Relaxed) != before[*i]).collect();
+                        // which waiting awaiter holds that waker id as its latest waker?
+                        let candidates: Vec<usize> = order.iter().copied().filter(|x| matches!(model[*x], AState::Waiting { waker, .. } if moved.contains(&waker))).collect();
+                        let picked = if prior { candidates.iter().copied().find(|x| Some(x) == order.first()) } else { candidates.iter().copied().find(|x| awaiters[*x].is_notified()) };
+                        let Some(x) = picked else {
+                            return Err(fl("notify/waker-not-latest-of-a-waiting-awaiter", format!("step {step} {op:?}: the returned waker (ids {moved:?}) is not the latest waker of an eligible waiting awaiter; model {model:?}")));
+                        };
+                        model[x] = AState::Notified;
+                        order.retain(|y| *y != x);
+                    }
+                }
+            }
+            AOp::AdvanceGeneration => {
+                set.advance_generation();
+                generation += 1;
+            }
+            AOp::Recreate { a } => {
+                let a = usize::from(a);
+                if matches!(model[a], AState::Waiting { .. }) {
+                    // SAFETY: as above.
+                    unsafe { set.unregister(awaiters[a].as_mut()) };
+                    order.retain(|x| *x != a);
+                }
+                model[a] = AState::Idle;
+                awaiters[a] = Box::pin(Awaiter::new());
+            }
+        }
+        // state comparison
+        if set.is_empty() != order.is_empty() {
+            return Err(fl("is_empty/differs-from-model", format!("step {step}: is_empty() = {}, model has waiting awaiters {order:?}", set.is_empty())));
+        }
+        for a in 0..5 {
+            let (reg, notif) = (awaiters[a].is_registered(), awaiters[a].is_notified());
+            let (wreg, wnotif) = match model[a] {
+                AState::Idle => (false, false),
+                AState::Waiting { .. } => (true, false),
+                AState::Notified => (true, true),
+            };
+            if (reg, notif) != (wreg, wnotif) {
+                return Err(fl("awaiter-state/differs-from-model", format!("step {step}: awaiter {a} is_registered={reg} is_notified={notif}, model {:?}", model[a])));
+            }
+        }
+    }
+    // teardown: unregister everything, drop
+    for a in 0..5 {
+        if matches!(model[a], AState::Waiting { .. }) {
+            // SAFETY: as above.
+            unsafe { set.unregister(awaiters[a].as_mut()) };
+        }
+    }
+    drop(awaiters);
+    drop(set);
+    let clones = ledger.waker_clones.load(Ordering::Relaxed);
+    let consumed = ledger.waker_consumed.load(Ordering::Relaxed);
+    if ledger.waker_double_consume.load(Ordering::Relaxed) > 0 || clones != consumed {
+        return Err(fl("waker/not-consumed-exactly-once", format!("{clones} waker clones made, {consumed} consumed")));
+    }
+    ledger.free_wakers();
+    if notified_any && generation > 1 {
+        ctx.nontrivial();
+    }
+    Ok(())
+}
+
+// ------------------------------------------------------------------------------------------------
+// section `local-reentrant`: single-threaded events whose wakers re-enter the event
+
+use std::cell::{Cell, RefCell};
+use std::rc::Rc;
+
+use events::{EmbeddedLocalAutoResetEvent, EmbeddedLocalManualResetEvent, LocalAutoResetEvent, LocalManualResetEvent};
+
+#[derive(Debug, Clone, Copy, Serialize, Deserialize, PartialEq, Eq)]
+enum LAct {
+    Nothing,
+    Set,
+    Reset,
+    TryWait,
+    /// poll wait future in slot (created on demand) with waker w
+    Poll { slot: u8, w: u8 },
+    DropWait { slot: u8 },
+}
+
+#[derive(Debug, Clone, Serialize, Deserialize)]
+struct LCase {
+    /// 0 local auto boxed, 1 local auto embedded, 2 local manual boxed, 3 local manual embedded
+    kind: u8,
+    program: Vec<LAct>,
+    /// consumed in order by every `wake` callback the event fires
+    callbacks: Vec<LAct>,
+}
+
+fn lcase_strategy() -> impl Strategy<Value = LCase> {
+    fn act(top: bool) -> impl Strategy<Value = LAct> {
+        prop_oneof![
+            if top { 0 } else { 2 } => Just(LAct::Nothing),
+            4 => Just(LAct::Set),
+            2 => Just(LAct::Reset),
+            2 => Just(LAct::TryWait),
+            6 => (0u8..4, 0u8..3).prop_map(|(slot, w)| LAct::Poll { slot, w }),
+            3 => (0u8..4).prop_map(|slot| LAct::DropWait { slot }),
+        ]
+    }
+    (0u8..4, prop::collection::vec(act(true), 0..10), prop::collection::vec(act(false), 0..8)).prop_map(|(kind, program, callbacks)| LCase { kind, program, callbacks })
+}
+
+trait LEv: Clone + 'static {
+    type Wait: Future<Output = ()> + 'static;
+    const MANUAL: bool;
+    fn set(&self);
+    fn reset(&self);
+    fn try_wait(&self) -> bool;
+    fn wait(&self) -> Self::Wait;
+}
+macro_rules! lev_impl {
+    ($t:ty, $w:ty, $manual:expr, $reset:expr) => {
+        impl LEv for $t {
+            type Wait = $w;
+            const MANUAL: bool = $manual;
+            fn set(&self) {
+                <$t>::set(self);
+            }
+            fn reset(&self) {
+                let f: fn(&$t) = $reset;
+                f(self);
+            }
+            fn try_wait(&self) -> bool {
+                <$t>::try_wait(self)
+            }
+            fn wait(&self) -> Self::Wait {
+                <$t>::wait(self)
+            }
+        }
+    };
+}
+lev_impl!(LocalAutoResetEvent, events::futures::LocalAutoResetWaitFuture, false, |_| {});
+lev_impl!(events::EmbeddedLocalAutoResetEventRef, events::futures::EmbeddedLocalAutoResetWaitFuture, false, |_| {});
+lev_impl!(LocalManualResetEvent, events::futures::LocalManualResetWaitFuture, true, |e| e.reset());
+lev_impl!(events::EmbeddedLocalManualResetEventRef, events::futures::EmbeddedLocalManualResetWaitFuture, true, |e| e.reset());
+
+trait LWorldDyn {
+    fn on_wake(&self);
+}
+
+thread_local! {
+    static LWORLD: RefCell<Option<Rc<dyn LWorldDyn>>> = const { RefCell::new(None) };
+}
+
+struct LWorld<E: LEv> {
+    ev: E,
+    slots: RefCell<Vec<Option<(u8, Pin<Box<E::Wait>>)>>>,
+    busy: RefCell<Vec<bool>>,
+    /// per slot: how many futures have lived there (each gets a fresh id)
+    ids: RefCell<Vec<u8>>,
+    next_id: Cell<u8>,
+    callbacks: RefCell<std::vec::IntoIter<LAct>>,
+    depth: Cell<u32>,
+    ledger: Arc<Ledger>,
+    clock: Cell<u64>,
+    ops: RefCell<Vec<Op>>,
+    reentered: Cell<u32>,
+    latest_waker: RefCell<std::collections::HashMap<u8, u8>>,
+}
+
+impl<E: LEv> LWorld<E> {
+    fn stamp(&self) -> u64 {
+        let c = self.clock.get();
+        self.clock.set(c + 1);
+        c
+    }
+    fn record(&self, kind: OpKind, inv: u64) {
+        let res = self.stamp();
+        // nested calls carry the nesting depth as their "task" so that the real-time order only
+        // relates calls that did not overlap
+        self.ops.borrow_mut().push(Op { task: self.depth.get() as u8, kind, inv, res });
+    }
+    fn perform(&self, act: LAct) -> bool {
+        match act {
+            LAct::Nothing => false,
+            LAct::Set => {
+                let inv = self.stamp();
+                self.ev.set();
+                self.record(OpKind::Set, inv);
+                true
+            }
+            LAct::Reset => {
+                if !E::MANUAL {
+                    return false;
+                }
+                let inv = self.stamp();
+                self.ev.reset();
+                self.record(OpKind::Reset, inv);
+                true
+            }
+            LAct::TryWait => {
+                let inv = self.stamp();
+                let b = self.ev.try_wait();
+                self.record(OpKind::TryWait(b), inv);
+                true
+            }
+            LAct::Poll { slot, w } => {
+                let s = usize::from(slot % 4);
+                if self.busy.borrow()[s] {
+                    return false;
+                }
+                let taken = self.slots.borrow_mut()[s].take();
+                let (id, mut f) = match taken {
+                    Some(x) => x,
+                    None => {
+                        let id = self.next_id.get();
+                        if id >= 15 {
+                            return false;
+                        }
+                        self.next_id.set(id + 1);
+                        (id, Box::pin(self.ev.wait()))
+                    }
+                };
+                self.busy.borrow_mut()[s] = true;
+                self.latest_waker.borrow_mut().insert(id, w % 3);
+                let cb: p_events_once::WakerCallback = Arc::new(|ev, _| {
+                    if ev == p_events_once::WakerEvent::Wake || ev == p_events_once::WakerEvent::WakeByRef {
+                        let w = LWORLD.with(|w| w.borrow().clone());
+                        if let Some(w) = w {
+                            w.on_wake();
+                        }
+                    }
+                });
+                let wk = waker(usize::from(w % 3), &self.ledger, false, Some(cb));
+                let mut cx = Context::from_waker(&wk);
+                let inv = self.stamp();
+                let ready = f.as_mut().poll(&mut cx).is_ready();
+                self.record(OpKind::Poll { fut: id, ready }, inv);
+                if ready {
+                    let inv = self.stamp();
+                    drop(f);
+                    self.record(OpKind::Cancel { fut: id }, inv);
+                } else {
+                    self.slots.borrow_mut()[s] = Some((id, f));
+                }
+                self.busy.borrow_mut()[s] = false;
+                drop(wk);
+                true
+            }
+            LAct::DropWait { slot } => {
+                let s = usize::from(slot % 4);
+                if self.busy.borrow()[s] {
+                    return false;
+                }
+                let taken = self.slots.borrow_mut()[s].take();
+                match taken {
+                    Some((id, f)) => {
+                        self.busy.borrow_mut()[s] = true;
+                        let inv = self.stamp();
+                        drop(f);
+                        self.record(OpKind::Cancel { fut: id }, inv);
+                        self.busy.borrow_mut()[s] = false;
+                        true
+                    }
+                    None => false,
+                }
+            }
+        }
+    }
+}
+
+impl<E: LEv> LWorldDyn for LWorld<E> {
+    fn on_wake(&self) {
+        let d = self.depth.get();
+        if d >= 3 {
+            return;
+        }
+        self.depth.set(d + 1);
+        for _ in 0..3 {
+            let next = self.callbacks.borrow_mut().next();
+            let Some(act) = next else { break };
+            if act == LAct::Nothing {
+                break;
+            }
+            if self.perform(act) {
+                self.reentered.set(self.reentered.get() + 1);
+                break;
+            }
+        }
+        self.depth.set(d);
+    }
+}
+
+fn run_local<E: LEv>(case: &LCase, ev: E, keep: Box<dyn FnOnce()>, ctx: &mut Ctx) -> Verdict {
+    let kind = ["local-auto-boxed", "local-auto-embedded", "local-manual-boxed", "local-manual-embedded"][usize::from(case.kind % 4)];
+    let fl = |k: &str, msg: String| Failure::new(format!("C08/{kind}/{k}"), format!("{msg}; program={:?} callbacks={:?}", case.program, case.callbacks));
+    let ledger = Arc::new(Ledger::default());
+    let world = Rc::new(LWorld::<E> {
+        ev,
+        slots: RefCell::new((0..4).map(|_| None).collect()),
+        busy: RefCell::new(vec![false; 4]),
+        ids: RefCell::new(vec![0; 4]),
+        next_id: Cell::new(0),
+        callbacks: RefCell::new(case.callbacks.clone().into_iter()),
+        depth: Cell::new(0),
+        ledger: Arc::clone(&ledger),
+        clock: Cell::new(1),
+        ops: RefCell::new(Vec::new()),
+        reentered: Cell::new(0),
+        latest_waker: RefCell::new(std::collections::HashMap::new()),
+    });
+    let _ = &world.ids;
+    LWORLD.with(|w| *w.borrow_mut() = Some(Rc::clone(&world) as Rc<dyn LWorldDyn>));
+    let panicked = vcommon::catch(|| {
+        for act in &case.program {
+            world.perform(*act);
+        }
+    })
+    .err();
+    // quiescent observations (no callbacks any more)
+    world.callbacks.borrow_mut().by_ref().for_each(drop);
+    let mut finals = Vec::new();
+    let mut final_signal = false;
+    if panicked.is_none() {
+        let inv = world.stamp();
+        final_signal = world.ev.try_wait();
+        world.record(OpKind::TryWait(final_signal), inv);
+        let parked: Vec<(u8, Pin<Box<E::Wait>>)> = world.slots.borrow_mut().iter_mut().filter_map(Option::take).collect();
+        for (id, mut f) in parked {
+            let wk = waker(7, &ledger, false, None);
+            let mut cx = Context::from_waker(&wk);
+            let inv = world.stamp();
+            let ready = f.as_mut().poll(&mut cx).is_ready();
+            world.record(OpKind::Poll { fut: id, ready }, inv);
+            let inv = world.stamp();
+            drop(f);
+            world.record(OpKind::Cancel { fut: id }, inv);
+            finals.push((id, ready));
+        }
+    }
+    LWORLD.with(|w| *w.borrow_mut() = None);
+    ctx.classify(&format!("kind:{kind}"));
+    if world.reentered.get() > 0 {
+        ctx.classify("waker-reentered-event");
+        ctx.nontrivial();
+    }
+    if let Some(m) = panicked {
+        return Err(fl(&format!("panic/{}", vcommon::normalise(&m).chars().take(50).collect::<String>()), format!("the event panicked: {m}")));
+    }
+    let ops = world.ops.borrow().clone();
+    if ops.len() > 60 {
+        return Ok(());
+    }
+    let before = real_time_order(&ops);
+    let lin = linearize_with(E::MANUAL, &ops, &before);
+    if lin.is_empty() {
+        let mut hist: Vec<&Op> = ops.iter().collect();
+        hist.sort_by_key(|o| o.inv);
+        let text: Vec<String> = hist.iter().map(|o| format!("d{}:{:?}[{}..{}]", o.task, o.kind, o.inv, o.res)).collect();
+        if E::MANUAL && linearize_manual_two_point(&ops, &before) {
+            return Err(fl("history/not-linearizable/set-flag-and-waiter-release-not-atomic", format!("explained only by a set() that publishes the flag and releases waiters in separate steps: {}", text.join(" "))));
+        }
+        return Err(fl("history/not-linearizable", format!("no sequential order of the (nested) calls respects their nesting and the specification: {}", text.join(" "))));
+    }
+    for (id, ready) in &finals {
+        let lw = world.latest_waker.borrow().get(id).copied().unwrap_or(0);
+        if *ready && ledger.wakes[usize::from(lw)].load(Ordering::Relaxed) == 0 {
+            return Err(fl("wake/released-waiter-not-woken", format!("wait future {id} was released but its latest waker {lw} was never invoked")));
+        }
+        if !*ready && final_signal {
+            return Err(fl("wake/signal-stored-while-waiter-registered", format!("a signal is stored while wait future {id} is still registered and pending")));
+        }
+    }
+    let clones = ledger.waker_clones.load(Ordering::Relaxed);
+    let consumed = ledger.waker_consumed.load(Ordering::Relaxed);
+    drop(world);
+    keep();
+    if ledger.waker_double_consume.load(Ordering::Relaxed) > 0 || clones != consumed {
+        return Err(fl("waker/clone-not-consumed-exactly-once", format!("{clones} waker clones made, {consumed} consumed")));
+    }
+    ledger.free_wakers();
+    Ok(())
+}
+
+fn check_local(case: &LCase, ctx: &mut Ctx) -> Verdict {
+    match case.kind % 4 {
+        0 => run_local(case, LocalAutoResetEvent::boxed(), Box::new(|| {}), ctx),
+        1 => {
+            let place = Box::pin(EmbeddedLocalAutoResetEvent::new());
+            // SAFETY: `place` outlives every reference and wait future (dropped by `keep`).
+            let r = unsafe { LocalAutoResetEvent::embedded(place.as_ref()) };
+            run_local(case, r, Box::new(move || drop(place)), ctx)
+        }
+        2 => run_local(case, LocalManualResetEvent::boxed(), Box::new(|| {}), ctx),
+        _ => {
+            let place = Box::pin(EmbeddedLocalManualResetEvent::new());
+            // SAFETY: as above.
+            let r = unsafe { LocalManualResetEvent::embedded(place.as_ref()) };
+            run_local(case, r, Box::new(move || drop(place)), ctx)
+        }
+    }
+}
+
 fn main() {
     vsched::install_shim!(events);
     vsched::install_shim!(awaiter_set);
@@ -416,6 +928,22 @@ fn main() {
         cases,
         case_strategy(),
         check,
+    );
+    let cases = h.cases(300_000, 8_000_000);
+    h.section(
+        "local-reentrant",
+        "single-threaded LocalAutoResetEvent / LocalManualResetEvent (boxed, embedded): generated program of set / reset / try_wait / poll wait slot 0..3 with waker 0..2 / drop wait, plus a list of actions consumed by every wake callback the event fires (the operations the docs declare sound inside a wake callback: set, reset, try_wait, polling a fresh or other wait, dropping another in-flight wait; nesting depth <= 3). Every call, nested or not, is logged with invocation / response stamps; the history plus quiescent observations must be linearizable under the same sequential specification as the thread-safe events (nested calls overlap their caller); released parked waiters had their latest waker invoked; waker clones consumed exactly once; no panic. non-trivial = at least one wake callback performed an operation on the event; distinct by serialised case",
+        cases,
+        lcase_strategy(),
+        check_local,
+    );
+    let cases = h.cases(200_000, 4_000_000);
+    h.section(
+        "awaiter-set",
+        "generated single-threaded history on AwaiterSet with five awaiters: register / re-register (new waker) / unregister / take_notification / notify_one / advance_generation / notify_one_prior_generation / recreate awaiter, respecting the documented preconditions; model = registration-ordered list with generations; notify_one may pick any waiting awaiter (the pick policy differs between debug and release builds), prior-generation must return the head iff it is older than the current generation; the returned waker must be the latest one registered for the picked awaiter; is_empty / is_registered / is_notified equal the model after every step; wakers consumed exactly once. non-trivial = at least one notification and one generation advance; distinct by serialised case",
+        cases,
+        aops_strategy(),
+        run_awaiter_set,
     );
     h.finish()
 }
